@@ -1,6 +1,188 @@
-//! C06: implementation-side case runners (see props/c06.py). Stub until the property is built.
+//! C06: XBin compression — implementation-side case runners (see props/c06.py).
+//!
+//! `xb <ice> <lossless> <sauce> <w> <h> <cells>`
+//!     ice: 0 Unlimited, 1 Blink, 2 Ice;  cells: w*h records of 6 bytes (hex): ch_hi ch_lo fg bg attr_lo page
+//!     Builds a one-layer buffer through the public API, saves it with compress=true and compress=false through
+//!     `Buffer::to_bytes("xb", …)`, loads both files through `Buffer::from_bytes`.
+//!     Observation: [sc, su] save status (0 ok, 1 Err) and, when both are ok,
+//!       lc, lu (load status), then for the compressed file: width, height of the loaded buffer, n, data section bytes…,
+//!       w*h*5 loaded cells (ch fg bg attr page); the same for the uncompressed file.
+//!     The data section is everything after header / palette / font(s), sizes computed from the header flags.
+//! `xbattr <ice> <nfonts>`   exhaustive sweep of encode_attr (through the uncompressed writer) over fg,bg 0..=15,
+//!     bold, blink, page 0/1 (page 1 only when nfonts=2): one data byte per combination.
+//! `xbdec <ice> <ext>`       exhaustive sweep of decode_char (through the uncompressed loader) over the 256 attribute
+//!     bytes: (fg bg attr page) per byte.
+use crate::util::{int, unhex};
 use crate::Obs;
+use icy_engine::{AttributedChar, BitFont, Buffer, IceMode, SaveOptions, TextAttribute, TextPane};
+use std::path::Path;
 
-pub fn run(_kind: &str, _args: &[&str]) -> Option<Obs> {
-    None
+fn ice_of(i: i64) -> IceMode {
+    match i {
+        0 => IceMode::Unlimited,
+        1 => IceMode::Blink,
+        _ => IceMode::Ice,
+    }
+}
+
+fn data_offset(b: &[u8]) -> usize {
+    let font_h = if b[9] == 0 { 16 } else { b[9] as usize };
+    let flags = b[10];
+    let mut o = 11;
+    if flags & 1 != 0 {
+        o += 48;
+    }
+    if flags & 2 != 0 {
+        o += 256 * font_h;
+        if flags & 16 != 0 {
+            o += 256 * font_h;
+        }
+    }
+    o
+}
+
+fn make_buffer(ice: i64, w: i32, h: i32, cells: &[u8]) -> Buffer {
+    let mut buf = Buffer::new((w, h));
+    buf.ice_mode = ice_of(ice);
+    let mut i = 0;
+    for y in 0..h {
+        for x in 0..w {
+            let c = &cells[i..i + 6];
+            i += 6;
+            let code = ((c[0] as u32) << 8) | c[1] as u32;
+            let mut attr = TextAttribute::new(c[2] as u32, c[3] as u32);
+            attr.attr = c[4] as u16;
+            attr.set_font_page(c[5] as usize);
+            if c[5] != 0 && buf.get_font(c[5] as usize).is_none() {
+                buf.set_font(c[5] as usize, BitFont::default());
+            }
+            buf.layers[0].set_char((x, y), AttributedChar::new(char::from_u32(code).unwrap(), attr));
+        }
+    }
+    buf
+}
+
+fn dump_loaded(out: &mut Vec<i64>, b: &Buffer, w: i32, h: i32) {
+    for y in 0..h {
+        for x in 0..w {
+            let ch = b.layers[0].get_char((x, y));
+            out.push(ch.ch as i64);
+            out.push(ch.attribute.get_foreground() as i64);
+            out.push(ch.attribute.get_background() as i64);
+            out.push(ch.attribute.attr as i64);
+            out.push(ch.attribute.get_font_page() as i64);
+        }
+    }
+}
+
+pub fn run(kind: &str, args: &[&str]) -> Option<Obs> {
+    Some(match kind {
+        "xb" => {
+            let ice = int(args[0]);
+            let lossless = int(args[1]) != 0;
+            let sauce = int(args[2]) != 0;
+            let w = int(args[3]) as i32;
+            let h = int(args[4]) as i32;
+            let cells = unhex(args[5]);
+            let buf = make_buffer(ice, w, h, &cells);
+            let mut opt = SaveOptions::default();
+            opt.lossles_output = lossless;
+            opt.save_sauce = sauce;
+            opt.compress = true;
+            let rc = buf.to_bytes("xb", &opt);
+            opt.compress = false;
+            let ru = buf.to_bytes("xb", &opt);
+            let mut out = vec![rc.is_err() as i64, ru.is_err() as i64];
+            if let (Ok(bc), Ok(bu)) = (rc, ru) {
+                let lc = Buffer::from_bytes(Path::new("c.xb"), false, &bc);
+                let lu = Buffer::from_bytes(Path::new("u.xb"), false, &bu);
+                out.push(lc.is_err() as i64);
+                out.push(lu.is_err() as i64);
+                for (bytes, l) in [(&bc, &lc), (&bu, &lu)] {
+                    if let Ok(b) = l {
+                        out.push(b.get_width() as i64);
+                        out.push(b.get_height() as i64);
+                    } else {
+                        out.push(-1);
+                        out.push(-1);
+                    }
+                    let d = &bytes[data_offset(bytes)..];
+                    out.push(d.len() as i64);
+                    out.extend(d.iter().map(|x| *x as i64));
+                    if let Ok(b) = l {
+                        dump_loaded(&mut out, b, w, h);
+                    }
+                }
+            }
+            Ok(out)
+        }
+        "xbattr" => {
+            let ice = int(args[0]);
+            let nfonts = int(args[1]);
+            // one row of 16*16*2*2*pages cells; with nfonts=2 the row holds page-0 and page-1 cells, so both fonts are in use
+            let pages: i64 = if nfonts == 2 { 2 } else { 1 };
+            let mut cells = Vec::new();
+            for page in 0..pages {
+                for bold in 0..2u8 {
+                    for blink in 0..2u8 {
+                        for bg in 0..16u8 {
+                            for fg in 0..16u8 {
+                                cells.extend_from_slice(&[0, 65, fg, bg, bold | (blink << 3), page as u8]);
+                            }
+                        }
+                    }
+                }
+            }
+            let n = (cells.len() / 6) as i32;
+            let buf = make_buffer(ice, n, 1, &cells);
+            let mut opt = SaveOptions::default();
+            opt.lossles_output = true;
+            opt.save_sauce = false;
+            opt.compress = false;
+            match buf.to_bytes("xb", &opt) {
+                Ok(b) => {
+                    let d = &b[data_offset(&b)..];
+                    Ok((0..n as usize).map(|i| d[2 * i + 1] as i64).collect())
+                }
+                Err(e) => Err(format!("save:{e}")),
+            }
+        }
+        "xbdec" => {
+            let ice = int(args[0]);
+            let ext = int(args[1]) != 0;
+            // hand-made uncompressed file: 256x1, flags from the arguments, default font block(s) when ext
+            let mut f = b"XBIN\x1a".to_vec();
+            f.extend_from_slice(&[0, 1, 1, 0, 16]);
+            let mut flags = 0u8;
+            if ice == 2 {
+                flags |= 8;
+            }
+            if ext {
+                flags |= 2 | 16;
+            }
+            f.push(flags);
+            if ext {
+                f.extend(std::iter::repeat(0u8).take(2 * 256 * 16));
+            }
+            for a in 0..256u32 {
+                f.push(66);
+                f.push(a as u8);
+            }
+            match Buffer::from_bytes(Path::new("d.xb"), false, &f) {
+                Ok(b) => {
+                    let mut out = Vec::new();
+                    for x in 0..256 {
+                        let ch = b.layers[0].get_char((x, 0));
+                        out.push(ch.attribute.get_foreground() as i64);
+                        out.push(ch.attribute.get_background() as i64);
+                        out.push(ch.attribute.attr as i64);
+                        out.push(ch.attribute.get_font_page() as i64);
+                    }
+                    Ok(out)
+                }
+                Err(e) => Err(format!("load:{e}")),
+            }
+        }
+        _ => return None,
+    })
 }
